@@ -166,7 +166,7 @@ static void body()
 
     // ---- 3. trim family
     static const char *const charsets[] = {nullptr /* default */, "", "x", "ab", " \t", "\xe9\x80", "xyz\x01"};
-    vrt::phase("trim", vrt::tier_count(6000, 400000), [&](uint64_t, Rng &r) {
+    vrt::phase("trim", vrt::tier_count(60000, 600000), [&](uint64_t, Rng &r) {
         const char *cs = r.pick(charsets);
         S set = cs ? S(cs) : S(" \t\r\n");
         S other = "Qq.\xc3\xa9";
@@ -306,7 +306,7 @@ static void body()
             }
         });
     }
-    vrt::phase("sep_random", vrt::tier_count(8000, 600000), [&](uint64_t, Rng &r) {
+    vrt::phase("sep_random", vrt::tier_count(80000, 800000), [&](uint64_t, Rng &r) {
         S alpha = r.chance(1, 3) ? S("ab:") : r.chance(1, 2) ? S("aAbB:.\xc3\xa9") : S("@`[{^~_\x7f,\x0c; \t)kK");   // last: non-letters next to their bit-5 twins
         if (r.chance(1, 4)) alpha.push_back('\0');
         S s = gen::bytes_over(r, gen::pick_len(r) % 60, alpha);
@@ -324,7 +324,7 @@ static void body()
     });
 
     // ---- 5. random substr/left/right
-    vrt::phase("slice_random", vrt::tier_count(20000, 3000000), [&](uint64_t, Rng &r) {
+    vrt::phase("slice_random", vrt::tier_count(300000, 4000000), [&](uint64_t, Rng &r) {
         S s = gen::any_bytes(r, gen::pick_len(r));
         vrt::Box<ST::string> st(vrt::mk(s));
         long n = static_cast<long>(s.size());
